@@ -2,7 +2,7 @@
 EXTENDS TripWire, TraceBase
 VARIABLE l
 TInit == l = 1 /\ InitWith(<<>>) /\ TLCSet(1, 0)
-Skip == LifeKinds \cup {"blocked", "tb", "te", "mdestroy", "starved"}
+Skip == LifeKinds \cup {"blocked", "tb", "te", "mdestroy", "starved", "soloyield"}
 TNext ==
     /\ l <= Len(Tr)
     /\ l' = l + 1
